@@ -112,3 +112,10 @@ def run(ctx):
         "projection of integer tables (harness/ux.py: fill value -> -1 after dtype/fill checks)",
         "inputs larger than the enumerated scope are sampled (random planar mixed meshes), then judged by the same relations",
     ]
+
+
+def replay(path):
+    """./check C02 --replay replays/C02_<clause>_<tier>.json"""
+    from checks import mesh_hist as mh
+
+    return mh.replay_file(PROP, path)
